@@ -228,9 +228,9 @@ def evaluate(ctx, checks, kind, sample, runner, st, info0):
             _v(ctx, "C08", checks, "second delete raised %s" % type(e).__name__, kind, sample, runner)
     # ---- C09
     if st.op == "save" and kind.padding and "C09" in checks and st.arg != "none" and st.mem:
-        if kind.family == "ogg" and not st.cb and wb["padding"] is None:
-            # data behind the Opus comment list that has to be preserved (RFC 7845 5.2): nothing may be added behind it,
-            # so there is no padding to ask the callback about
+        if kind.family == "ogg" and not st.cb and ogg_opaque_trailer(wb):
+            # data behind the Opus comment list that has to be preserved (RFC 7845 5.2, judged by the independent walker:
+            # first byte odd): nothing may be added behind it, so there is no padding to ask the callback about
             ctx.count("c09:ogg-opaque-trailer")
         elif len(st.cb) != 1:
             _v(ctx, "C09", checks, "padding callback called %d times" % len(st.cb), kind, sample, runner)
@@ -279,6 +279,11 @@ def evaluate(ctx, checks, kind, sample, runner, st, info0):
                     _v(ctx, "C09", checks, "info.padding is not the space left in the old tag region", kind, sample, runner,
                        {"info_padding": p_in, "size_delta": delta - v1fix})
     return True
+
+
+def ogg_opaque_trailer(w):
+    """the walker (not mutagen) found data behind the Opus comment list whose first byte is odd"""
+    return any(lab.endswith("-comment-trailer") and data and data[0] & 1 for lab, data in w["foreign"])
 
 
 def ogg_pages_in_place(wb, wa, before, after):
